@@ -95,7 +95,7 @@ Theorem c16_shared_ok_sound : forall fs,
     In (FAcc pkg var path meth k fn line sy locked) fs ->
     (k = ARead -> locked = true) /\
     (k = AAddr -> sy = true) /\
-    (mutating k = true -> sy = true \/ (is_registry_table pkg var path = true /\ locked = true /\ k <> AAddr)).
+    (mutating k = true -> sy = true \/ (is_guarded_field pkg var path = true /\ locked = true /\ k <> AAddr)).
 Proof. exact shared_ok_sound. Qed.
 Print Assumptions c16_shared_ok_sound.
 
